@@ -10,7 +10,6 @@ import (
 	"database/sql"
 	"encoding/hex"
 	"encoding/json"
-	"errors"
 	"fmt"
 	"io"
 	"reflect"
@@ -35,7 +34,16 @@ type recorded struct {
 
 type ctxKey struct{}
 
-var errSentinel = errors.New("executor sentinel error")
+// the executor's error claims to be everything an adapter might be tempted to treat specially (retryable, temporary,
+// a timeout): it must come back unchanged, after exactly one call, all the same
+type sentinelErr struct{}
+
+func (*sentinelErr) Error() string     { return "executor sentinel error" }
+func (*sentinelErr) SafeToRetry() bool { return true }
+func (*sentinelErr) Temporary() bool   { return true }
+func (*sentinelErr) Timeout() bool     { return true }
+
+var errSentinel error = &sentinelErr{}
 
 type stubRows struct {
 	pgx.Rows
@@ -106,22 +114,22 @@ func (s *sqlStub) ExecContext(ctx context.Context, q string, args ...any) (sql.R
 }
 
 type c12Case struct {
-	ID        int    `json:"id"`
-	Adapter   string `json:"adapter"`
-	Method    string `json:"method"`
-	Path      string `json:"path"` // build-then-executor | executor-then-build
-	Named     bool   `json:"named"`
-	Validate  bool   `json:"validate"`
-	ExecFails bool   `json:"exec_fails"`
-	Pretty    bool   `json:"pretty"`
-	Second    string `json:"second"` // method of a second execution on the same executive builder, "" for none
-	Prog      string `json:"prog"`
-	RenderErr string `json:"render_err,omitempty"` // error of a fresh ToSQL with the same options
-	NCalls    int    `json:"ncalls"`
+	ID        int      `json:"id"`
+	Adapter   string   `json:"adapter"`
+	Method    string   `json:"method"`
+	Path      string   `json:"path"` // build-then-executor | executor-then-build
+	Named     bool     `json:"named"`
+	Validate  bool     `json:"validate"`
+	ExecFails bool     `json:"exec_fails"`
+	Pretty    bool     `json:"pretty"`
+	Second    string   `json:"second"` // method of a second execution on the same executive builder, "" for none
+	Prog      string   `json:"prog"`
+	RenderErr string   `json:"render_err,omitempty"` // error of a fresh ToSQL with the same options
+	NCalls    int      `json:"ncalls"`
 	Problems  []string `json:"problems"`
-	NArgs     int    `json:"nargs"`
-	Panic     string `json:"panic,omitempty"`
-	SQL       string `json:"sql"`
+	NArgs     int      `json:"nargs"`
+	Panic     string   `json:"panic,omitempty"`
+	SQL       string   `json:"sql"`
 	// for the independent oracle (the extracted model): the value and one standard rendering record of ToSQL
 	Dump    string   `json:"dump"`
 	Renders []Render `json:"renders"`
